@@ -32,7 +32,8 @@ def run (j : Json) : Except String Json := do
   let refTag := match ref with
     | .ok .. => "del" | .missingFinal e => s!"missing-final({e.cls})" | .missingParent .. => "missing-parent"
     | .fault => "fault" | .partialFail => "partial" | .unsupported => "unsupported"
-  let branch := (if c.sroot then "S:" else "") ++ (if star then "star:" else "") ++
+  let branch := (if c.sroot then "S:" else "") ++ (if c.hasUreg then "user-reg:" else "") ++
+    (if star then "star:" else "") ++
     (if ignore then "ignore:" else "") ++ refTag ++ "→" ++ resTag modelObs.res ++
     (if cov then " [thm]" else if covStar then " [thm*]" else "")
   return Json.mkObj [("agree", agree), ("holds", holds), ("model_holds", modelHolds),
